@@ -178,12 +178,18 @@ def innermost_pydsdl_frame(exc: BaseException) -> str:
 
 
 def raised_inside_pydsdl(exc: BaseException) -> bool:
+    # the innermost frame that belongs either to the harness or to the implementation decides: an exception raised by the
+    # standard library / a third-party package ON BEHALF of pydsdl (pathlib called from _namespace.py) is the implementation's
     tb = exc.__traceback__
-    last = None
+    owner = None
     while tb is not None:
-        last = tb.tb_frame.f_code.co_filename
+        fn = tb.tb_frame.f_code.co_filename
+        if fn.startswith(str(VERIF)):
+            owner = "harness"
+        elif "/pydsdl/" in fn:
+            owner = "pydsdl"
         tb = tb.tb_next
-    return last is not None and "/pydsdl/" in last and not last.startswith(str(VERIF))
+    return owner == "pydsdl"
 
 
 def guarded(mod, case, R: "Acc") -> None:
